@@ -141,11 +141,14 @@ def case_mtl(sp, kind):
     elif kind == "length_mismatch":
         tp = [[[prog["q0"]]], [[prog["q0"]], [prog["q1"]], []]][choice(2, "mismatch")]
     elif kind == "overlap":
-        which = choice(2, "overlap_kind")
+        which = choice(3, "overlap_kind")
         if which == 0:
             tp = [[prog["q0"]], [prog["q1"], prog["p1"]]]
+        elif which == 1:
+            tp = [[prog["q0"], prog["p1"]], [prog["q1"]]]  # the overlap sits in a task that is NOT the last one
         else:
             shp = [prog["p0"], prog["p1"], prog["q0"]]
+        descr["which"] = which
     elif kind == "duplicate_param":
         which = choice(2, "dup_kind")
         if which == 0:
